@@ -60,7 +60,7 @@ def r1_cut_check(ck, F):
         ed = (ed[0], ed[2], ed[1])
     ck.ob(R, "cut-relation", op == ">=", f"data block is cut when `estimate {op} block_size` (must be >=: a block that reaches B exactly is emitted)", b, site)
     rets = [Site(r, None) for r in b.return_blocks()]
-    ck.ob(R, "checked-after-every-insert", b.dominates(ins[0], site) and all(b.dominates(site, r) for r in rets), "the test is made after the entry was appended and on every path to a return", b, site)
+    ck.ob(R, "checked-after-every-insert", b.dominates(ins[0], site) and on_every_success_path_after(b, ins[0].bb, site), "the test is made after the entry was appended, on every succeeding path from there", b, site)
     ok = ed is not None and len(fl) == 1 and b.dominates(ed[1], fl[0].bb) and not b.dominates(ed[2], fl[0].bb)
     ck.ob(R, "true-edge-flushes-same-writer", ok, "the `reached` edge leads to compress_and_write_block(self.block_writer)", b, site)
     # between the test and the flush only: last_key() is Some, a parent exists
@@ -167,12 +167,16 @@ def r5_reset(ck, F):
     rs = F.body(A("bw_reset"))
     clr = [s for s, c, t in calls(rs, "Vec::<T, A>::clear") if is_self_field(rs.arg_exprs(s)[0], "buffer")]
     tr = [s for s, c, t in calls(rs, "Vec::<T, A>::truncate") if is_self_field(rs.arg_exprs(s)[0], "index_offsets") and const_val(rs.arg_exprs(s)[1]) == 1]
+    from .lastkey import LastKeyRepr
+    LK = LastKeyRepr(F)
     zs = {}
     for site, st in rs.sites():
         if site.i is not None and st["s"] == "assign" and st["pl"]["p"]:
             e = rs._expr_of_def((site, "assign", st["rv"]))
-            zs[st["pl"]["p"][-1].get("name")] = "None" if (e.k == "agg" and e.x.get("variant") == "None") else const_val(e)
-    ck.ob(R, "reset-empties-writer", len(clr) == 1 and len(tr) == 1 and zs == {"last_key": "None", "index_key_counter": 0}, f"reset: buffer.clear(), index_offsets.truncate(1), {zs}", rs)
+            nm = st["pl"]["p"][-1].get("name")
+            if nm == "index_key_counter":
+                zs[nm] = const_val(e)
+    ck.ob(R, "reset-empties-writer", len(clr) == 1 and len(tr) == 1 and zs == {"index_key_counter": 0} and bool(LK.absent_stores(rs)), f"reset: buffer.clear(), index_offsets.truncate(1), last key absent, {zs}", rs)
     dr = F.body(A("bb_drop"))
     cs = calls(dr, A("bw_reset"))
     ck.ob(R, "drop-resets", len(cs) == 1 and is_self_field(dr.arg_exprs(cs[0][0])[0], "block_builder"), "dropping the finished block resets its writer", dr)
